@@ -39,6 +39,7 @@ type solver struct {
 	nameSeq           int64
 	scope             []string // assertions made inside the innermost open (push 1) of a check
 	depth             int      // number of open (push 1) scopes
+	stale             bool // the session timed out or printed an error: restart it before the next use
 	hungJustRestarted bool     // the session was just restarted by the watchdog path (no second restart needed)
 	hung              bool     // the watchdog killed the process because it ignored its own time limit
 }
@@ -85,6 +86,7 @@ func (s *solver) restart() error {
 	}
 	s.cmd, s.in, s.out = cmd, in, bufio.NewReaderSize(out, 1<<16)
 	s.hung = false
+	s.stale = false
 	s.depth = 0
 	s.scope = s.scope[:0]
 	savedLog := s.log
@@ -198,8 +200,12 @@ func (s *solver) checkSat() string {
 	case "sat", "unsat":
 		return r
 	case "unknown", "timeout":
+		s.stale = true
 		return "unknown"
 	}
+	// an (error ...) answer (e.g. the memory limit was hit): the answer stream may be out of step with the commands and an
+	// assertion may have been dropped - the session must not be used again
+	s.stale = true
 	s.errs++
 	if s.log != nil {
 		s.log.WriteString("; solver answered: " + r + "\n")
